@@ -880,6 +880,25 @@ def F39_position_labels_break_invariance():
                       + f"; threshold {thr:.1f} = p<1e-9, 19 dof, N=60000, one step from exact uniform draws, seed 35035"}
 
 
+def F41_record_subarray_of_objects_alias():
+    """a record dtype whose field is a SUB-ARRAY of objects: copy.deepcopy(ndarray) (numpy 2.x) copies the references of such a
+    field, so _ensure_copy / get_history still hand out and commit the caller's arrays"""
+    from tempest.state_manager import StateManager
+    a = np.empty(2, dtype=[("vs", object, (2,)), ("s", float)])
+    for i in range(2):
+        a["vs"][i, 0] = np.array([1.0, 2.0])
+        a["vs"][i, 1] = np.array([3.0])
+    a["s"] = 0.0
+    sm = StateManager(2)
+    sm.set_current("blobs", a)
+    sm.commit_current_to_history()
+    sm.get_current("blobs")["vs"][0, 0][:] = -9.0
+    got = [float(v) for v in sm.get_history("blobs", 0)["vs"][0, 0]]
+    return {"fails": got != [1.0, 2.0],
+            "detail": f"set_current('blobs', rec[('vs', object, (2,))]); commit; get_current('blobs')['vs'][0,0][:] = -9 -> "
+                      f"get_history('blobs', 0)['vs'][0,0] = {got} (want [1.0, 2.0])"}
+
+
 ALL = {k: v for k, v in list(globals().items()) if k[:1] == "F" and callable(v)}
 
 if __name__ == "__main__":
